@@ -49,7 +49,12 @@ CONTRACTS.append(Contract(
     ML + ".build", params={"self": "rec[%s]" % ML, "source": "str", "filename": "str"},
     inline=["encode_string"],
     ensures=["ext_names() == " + ORDER,
-             "ext_call_arg('rename', 0, 1) == ext_call_result('join', 0)"] + ALWAYS,
+             "ext_call_arg('rename', 0, 1) == ext_call_result('join', 0)",
+             # the entry is named after the WHOLE name it was asked to store (extension replaced by
+             # .py): the name carries the digest, so nothing of it may be cut or padded
+             "ext_call_arg('splitext', 0, 0) == filename",
+             "ext_call_arg('join', 0, 0) == self.path and "
+             "ext_call_arg('join', 0, 1) == ext_call_result('splitext', 0)[0] + '.py'"] + ALWAYS,
     raises={'OSError': {'ensures': ALWAYS}, 'KeyboardInterrupt': {'ensures': ALWAYS},
             # an exception from a library call the contract does not know is not expected at all
             },
